@@ -6,6 +6,7 @@ import (
 	"net"
 	"net/netip"
 	"sync"
+	"time"
 
 	"github.com/pkg/errors"
 	"go.brendoncarroll.net/p2p"
@@ -78,7 +79,7 @@ func newServer(s *Swarm, netConn net.Conn) (*Conn, error) {
 	return c, nil
 }
 
-func newClient(s *Swarm, remoteAddr Addr, netConn net.Conn) (*Conn, error) {
+func newClient(ctx context.Context, s *Swarm, remoteAddr Addr, netConn net.Conn) (*Conn, error) {
 	var pubKey ssh.PublicKey
 	config := &ssh.ClientConfig{
 		Auth: []ssh.AuthMethod{
@@ -94,7 +95,14 @@ func newClient(s *Swarm, remoteAddr Addr, netConn net.Conn) (*Conn, error) {
 		},
 	}
 
+	// the ssh handshake takes no context: interrupt it through the connection's deadline.
+	stop := context.AfterFunc(ctx, func() { netConn.SetDeadline(time.Unix(1, 0)) })
 	sconn, newChans, reqs, err := ssh.NewClientConn(netConn, netConn.RemoteAddr().String(), config)
+	if !stop() {
+		// the context ended during the handshake; the connection is not usable.
+		netConn.Close()
+		return nil, ctx.Err()
+	}
 	if err != nil {
 		return nil, err
 	}
@@ -173,6 +181,26 @@ func (c *Conn) Send(wantReply bool, payload []byte) ([]byte, error) {
 		return nil, errors.Errorf("non-okay response")
 	}
 	return resData, nil
+}
+
+// Ask sends a request and waits for the reply, or until ctx is done.
+// The reply to an abandoned request is discarded.
+func (c *Conn) Ask(ctx context.Context, payload []byte) ([]byte, error) {
+	type result struct {
+		data []byte
+		err  error
+	}
+	done := make(chan result, 1)
+	go func() {
+		data, err := c.Send(true, payload)
+		done <- result{data, err}
+	}()
+	select {
+	case <-ctx.Done():
+		return nil, ctx.Err()
+	case res := <-done:
+		return res.data, res.err
+	}
 }
 
 func (c *Conn) RemoteAddr() Addr {
